@@ -3,7 +3,7 @@ import LyModel.Yin.LemmasFuel
 set_option linter.unusedSimpArgs false
 set_option linter.unusedVariables false
 namespace LyModel.Yin
-open LyModel LyModel.Utf8 LyModel.Generated LyModel.XmlText
+open LyModel LyModel.Utf8 LyModel.Generated LyModel.XmlText LyModel.XmlLex
 
 theorem wsLit_contentWs_nat : ∀ n < 256, wsLit false (UInt8.ofNat n) = contentWs (UInt8.ofNat n) := by decide +kernel
 theorem wsLit_contentWs (b : UInt8) : wsLit false b = contentWs b := by
@@ -56,11 +56,12 @@ theorem argElem_ok (ns : List XNs) (cx : XCtx) (p an v X : Bytes) (self : Option
     ?_, rfl, rfl, rfl, by simp [h4n, hrm]⟩
   simp only [parseGeneric, hmk, remapArg_ext, e1, hga, Except.map, mkwToYKw]
   simp [h4s, h4w, h4v, hne, e2, hpfx, hname]
+  done
 
 end LyModel.Yin
 
 namespace LyModel.Yin
-open LyModel LyModel.Utf8 LyModel.Generated LyModel.XmlText
+open LyModel LyModel.Utf8 LyModel.Generated LyModel.XmlText LyModel.XmlLex
 
 /-- what `yprp_extension_instance` writes behind `<prefix:name` (no nested instance, every child printed) -/
 def extAfterName (fmt : Bool) (level : Nat) (name : Bytes) (argname : Option Bytes) (ye : Bool) (argument : Option Bytes)
@@ -100,7 +101,7 @@ theorem printExt_shape (fmt : Bool) (level : Nat) (name : Bytes) (argname : Opti
 end LyModel.Yin
 
 namespace LyModel.Yin
-open LyModel LyModel.Utf8 LyModel.Generated LyModel.XmlText
+open LyModel LyModel.Utf8 LyModel.Generated LyModel.XmlText LyModel.XmlLex
 
 theorem ident_no_colon (p : Bytes) (hp : isIdent p = true) : ∀ b ∈ p, b ≠ 58 := by
   obtain ⟨a, t, rfl, ha⟩ := isIdent_ne_nil hp
